@@ -81,7 +81,7 @@ def check_mm(seed):
     a = MarketMakerAgent(agent_id=3, prng=random.Random(1), simulator=Sim(), name="mm")
     acc = [m for m in ms if rng.random() < 0.8] or [ms[0]]
     a.asset_volumes = {m.market_id: 0 for m in acc}
-    a.target_market = acc[0]; a.net_interest_spread = rng.choice([0.01, 0.05]); a.order_time_length = rng.randint(1, 3)
+    a.target_market = acc[0]; a.net_interest_spread = rng.choice([0.01, 0.05, 0.05, 2.0]); a.order_time_length = rng.randint(1, 3)      # 2.0: a very wide spread, the buy quote comes out near zero
     orders = a.submit_orders(ms)
     bids = [m.get_best_buy_price() for m in acc if m.get_best_buy_price() is not None]; asks = [m.get_best_sell_price() for m in acc if m.get_best_sell_price() is not None]
     base = (max(bids) + min(asks)) / 2.0 if bids and asks else a.target_market.get_market_price()
